@@ -28,7 +28,37 @@ fn one(t: &mut Tally, seed: u64, wl: &str, shard: u64, i: u64, chosen: &[usize],
         r: &mut sr,
         level: (i % 2) as u8,
     };
-    let (case, applied) = build_case(&l, &cfg, chosen, &mut r, &mut sp);
+    let (mut case, applied) = build_case(&l, &cfg, chosen, &mut r, &mut sp);
+    // presigned form POST with folding on: now and then the body repeats authentication parameters with *sound* values.
+    // They rank after the URL's copies, so whichever check fails first on the URL's copies still fails first.
+    let is_form = case.wire.headers.iter().any(|(n, v)| n.eq_ignore_ascii_case(b"content-type") && v.to_ascii_lowercase().starts_with(b"application/x-www-form-urlencoded"));
+    if carrier == Carrier::Query && case.cfg.fold && is_form && r.chance(1, 2) {
+        let good: [(&str, String); 5] = [
+            ("X-Amz-Algorithm", "AWS4-HMAC-SHA256".to_string()),
+            ("X-Amz-Date", l.t.compact()),
+            ("X-Amz-Credential", crate::rm::pct_encode(format!("{}/{}/{}/{}/aws4_request", l.access_key, l.t.yyyymmdd(), case.cfg.region, case.cfg.service).as_bytes())),
+            ("X-Amz-SignedHeaders", "host".to_string()),
+            ("X-Amz-Signature", "0".repeat(64)),
+        ];
+        let k = 1 + r.usize_below(good.len());
+        let mut idx: Vec<usize> = (0..good.len()).collect();
+        r.shuffle(&mut idx);
+        for g in idx.into_iter().take(k) {
+            let piece = format!("{}={}", good[g].0, good[g].1);
+            if case.wire.body.is_empty() {
+                case.wire.body = piece.into_bytes();
+            } else if r.coin() {
+                case.wire.body.push(b'&');
+                case.wire.body.extend_from_slice(piece.as_bytes());
+            } else {
+                let mut b = piece.into_bytes();
+                b.push(b'&');
+                b.extend_from_slice(&case.wire.body);
+                case.wire.body = b;
+            }
+        }
+        t.count("later_sound_copies_in_folded_body");
+    }
     let rec = execute(&case);
     t.eval();
     if matches!(rec.outcome, Outcome::NotBuilt(_)) {
@@ -349,6 +379,7 @@ pub fn run(tier: Tier) -> i32 {
     ctx.gate("pair-matrix cells (earlier check, later check, carrier) observed often enough", total - missing, total);
     let decided_edits = crate::mutwire::EDITS.iter().filter(|e| tally.get(&format!("edit_decided/{}", e)) >= tier.n(50, 1000)).count() as u64;
     ctx.gate("structured edit kinds applied and decided often enough", decided_edits, crate::mutwire::EDITS.len() as u64 - 1);
+    ctx.gate("presigned folded forms whose body repeats authentication parameters with sound values (URL copies rank first)", tally.get("later_sound_copies_in_folded_body"), tier.n(2000, 50_000));
     ctx.gate("taxonomy rows checked on directly constructed errors", tally.get("taxonomy_rows_checked"), 12);
     if tier == Tier::Thorough {
         ctx.gate("coverage-guided (libFuzzer) agreement run clean", tally.get("sanitizer/fuzz/clean"), 1);
@@ -358,7 +389,7 @@ pub fn run(tier: Tier) -> i32 {
     let rep = Report {
         level: "exploration",
         rule: format!(
-            "W-defect: {} injectors (one or more per documented check, both carriers, all option sets) applied singly, in all pairs and in random subsets of 3-6 to otherwise validly signed requests; the reference model decides on the final request which check fails first and which error class that check produces; the monitor compares kind + message discriminator, and checks (code, status) = f(kind) on every error seen plus every variant constructed directly. Non-trivial = a request carrying at least one defect of a later check than the one that must be reported, refused with the reference class; distinct by case hash.",
+            "W-defect: {} injectors (one or more per documented check, both carriers, all option sets) applied singly, in all pairs and in random subsets of 3-6 to otherwise validly signed requests (every other presigned folded form additionally repeats 1–5 authentication parameters, with sound values, in its body: the URL's copies rank first, so the first failing check is unchanged); the reference model decides on the final request which check fails first and which error class that check produces; the monitor compares kind + message discriminator, and checks (code, status) = f(kind) on every error seen plus every variant constructed directly. Non-trivial = a request carrying at least one defect of a later check than the one that must be reported, refused with the reference class; distinct by case hash.",
             INJECTORS.len()
         ),
         assumptions: vec![
